@@ -23,6 +23,7 @@ import (
 	"fmt"
 	"math/rand"
 	"sort"
+	"strings"
 
 	"github.com/multiversx/mx-chain-core-go/data/transaction"
 	logger "github.com/multiversx/mx-chain-logger-go"
@@ -63,7 +64,7 @@ func keyName(i int) []byte {
 		return []byte{0xff, 0x80, 0x01}
 	}
 	if i >= 20 {
-		return []byte(fmt.Sprintf("k%04d", i)) // large-population histories
+		return []byte(fmt.Sprintf("k%05d", i)) // large-population histories
 	}
 	return []byte{byte('a' + i)}
 }
@@ -191,6 +192,31 @@ func (comp) Gen(prop string, rng *rand.Rand, tier string) *core.History {
 // Exhaustive: one chunk, three keys, every sequence of a fixed length over a small op alphabet
 // (every shorter sequence is a prefix of one of them and is checked after each op).
 func (comp) Exhaustive(prop string, tier string, yield func(*core.History)) {
+	if strings.HasSuffix(prop, ":scale") {
+		// MONITOR-ONLY scale histories (the reference queue of the monitor is the oracle): more than 1024 / 4096 immune items at
+		// the head of the insertion order, evictable ones behind them, then adds at capacity: the walk must reach the evictable ones
+		for kind := 0; kind < 2; kind++ {
+			for _, nImm := range []int{1100} {
+				nOther := 40
+				first := 20
+				h := &core.History{}
+				h.SetConfig(core.N(uint64(kind)), core.N(1), core.N(uint64(nImm+10)), core.N(1<<30), core.N(2), universeTok(first+nImm+nOther))
+				var imm []string
+				for j := 0; j < nImm; j++ {
+					imm = append(imm, core.B(keyName(first+j)))
+				}
+				h.Add(opImmunize, fmt.Sprintf("immunize %d keys in one call", nImm), core.L(imm...))
+				for j := 0; j < nImm; j++ {
+					h.Add(opHasOrAdd, "", core.B(keyName(first+j)), core.B([]byte{byte(j >> 8), byte(j)}), core.I(2))
+				}
+				for j := 0; j < nOther; j++ {
+					h.Add(opHasOrAdd, "", core.B(keyName(first+nImm+j)), core.B([]byte{0xee, byte(j)}), core.I(2))
+				}
+				yield(h)
+			}
+		}
+		return
+	}
 	// LARGE-POPULATION histories (beyond the small scope): one ImmunizeKeys / ImmunizeTxsAgainstEviction call with more than 512 keys
 	// (a block's worth), all of them added, then enough other items to force evictions: every immunized item must stay. A threshold or
 	// batch boundary inside the immunisation path shows here and nowhere else.
